@@ -428,6 +428,14 @@ def judge_twin(workdir, case):
     for ch in CHANNELS:
         a, b = state_a.get(ch, {}), state_b.get(ch, {})
         for k in sorted(set(a) | set(b)):
+            if case["version"] == 1 and ch == "values" and k in a and k in b:
+                # protocol 1 has no visibility channel: null (normalised to False above) marks an option the server
+                # reported invisible at some point.  For a non-bool option "invisible marker on one side, a value on the
+                # other" is not a difference the client can observe on visible options (C14: version 1 is compared on
+                # visible options); the saved files below are compared in full and catch a real state difference.
+                inv_a, inv_b = a[k] is False, b[k] is False
+                if inv_a != inv_b and not isinstance(a[k] if inv_b else b[k], bool):
+                    continue
             if k not in a or k not in b or a[k] != b[k] or type(a[k]) is not type(b[k]):
                 diffs.append("client %s[%s]: %r with the offending part, %r without" % (ch, k, a.get(k, "<absent>"), b.get(k, "<absent>")))
                 config_differs = True
@@ -1388,7 +1396,20 @@ def _c15_tree(task):
             # ---- bad requests in any order, mixed with valid ones: all individually well-handled cases in one session
             if passed and task.get("mixed", True):
                 rng = random.Random(crc("c15mix", task["seed"], origin, version))
-                order = list(passed)
+                # out-of-range assignments are judged by their own contract (known finding accepted:*-out-of-range-value:
+                # the assignment overwrites the option's previous user value).  Alone the effect can be masked by
+                # clamping and only show after a later request moved the range, so such lines would make the twin
+                # comparison of the mix report that same known defect under another name: they are left out of the mix.
+                # The same holds for requests whose offending-ness depends on the state they were built against
+                # (`set` of an option that was invisible then): in the mix an earlier line may have made the option
+                # visible, the assignment is then a valid one and the twin without it is no longer the right oracle.
+                # Value-level cases (`<type>-<what>-value`) are judged one by one only: whether such an assignment is
+                # offending, and whether its effect shows, depends on the ranges / visibility at that moment (the
+                # co-change of the case can clamp the option so that an overwritten user value only shows after a later
+                # line moved the range again) -- in the mix that would re-report the known findings accepted:*-value
+                # under another name.  The mix composes the request-structure cases (versions, non-objects, set / reset /
+                # load / save of the wrong shape, unknown names), whose offending part is the same in every state.
+                order = [c for c in passed if not c["kind"].endswith("-value") and c["kind"] != "set-invisible-option"]
                 rng.shuffle(order)
                 order = order[: task.get("mixed_len", 40)]
                 la, lb = [_line(p) for p in prefix], [_line(p) for p in prefix]
